@@ -512,10 +512,7 @@ func main() {
 		Imports:  "From Reservoir Require Import Base.Prelude Model.Coalesce Check.Coalesce.",
 		CaseType: "coal_case", CheckFn: "check_coalesce"}
 
-	backends := []string{"memory"}
-	if *flagTier == "thorough" {
-		backends = []string{"memory", "file"}
-	}
+	backends := []string{"memory", "file"}
 	t0 := time.Now()
 	stuck, skipped := 0, 0
 	const maxStuck = 25
